@@ -86,12 +86,6 @@ func (r *Rng) otherKind(depth int) string {
 func (r *Rng) emitString(sb *strings.Builder, s string, o *RemixOpts, log *RemixLog, isKey bool) {
 	// spelling variants that denote the same string
 	if o.Keys && isKey && r.hit(o) && s != "" {
-		if r.Chance(1, 3) {
-			// a key that spells a JSON word or a sign: no key of any kind may treat it as a value
-			log.add("word-key")
-			sb.WriteString([]string{`"null"`, `"true"`, `"-"`, `"NaN"`}[r.Intn(4)])
-			return
-		}
 		// escape one rune as \uXXXX
 		rs := []rune(s)
 		i := r.Intn(len(rs))
